@@ -63,19 +63,19 @@ def _dur(xx, scale):
 CALLS = {}        # case id -> inputs the worker function received (thread pool / event loop only: same process)
 
 
-def f(xx, *, fail, off, scale, cid=None):
+def f(xx, *, fail, off, scale, cid=None, q=0, to_stop=0):      # (q, to_stop: names the library uses internally)
     if cid is not None:
         CALLS.setdefault(cid, []).append(xx - off)
     time.sleep(_dur(xx, scale))
     if (xx - off) in fail:
         raise stage_err(fail[xx - off])
-    return 3 * xx + 1
+    return 3 * xx + 1 + q + to_stop
 
 
-async def af(xx, *, fail, off, scale, cid=None):
+async def af(xx, *, fail, off, scale, cid=None, tasks=0, to_stop=0):
     if cid is not None:
         CALLS.setdefault(cid, []).append(xx - off)
     await asyncio.sleep(_dur(xx, scale))
     if (xx - off) in fail:
         raise stage_err(fail[xx - off])
-    return 3 * xx + 1
+    return 3 * xx + 1 + tasks + to_stop
